@@ -969,6 +969,7 @@ func syncFiltered(c *Ctx) error {
 			}
 		}
 		// a hard-linked pair of named pipes, the first member early in the walk
+		hidePipe := false
 		if c.Rand.Intn(5) == 0 {
 			var dirs []string
 			for _, e := range t {
@@ -983,6 +984,7 @@ func syncFiltered(c *Ctx) error {
 					t = append(t, model.Entry{Path: "0pipe", Type: "fifo", Perm: 0644, Mtime: m, Group: 700},
 						model.Entry{Path: d + "/pipe", Type: "fifo", Perm: 0644, Mtime: m, Group: 700})
 					t.Sort()
+					hidePipe = c.Rand.Intn(2) == 0
 				}
 			}
 		}
@@ -1017,6 +1019,10 @@ func syncFiltered(c *Ctx) error {
 				fol = []string{"lnk"}
 			}
 			in.Stack = append(in.Stack, [3][]string{inc, exc, fol})
+		}
+		if hidePipe {
+			// the first member is walked (its inode is recorded) and then hidden by the filter
+			in.Stack = append(in.Stack, [3][]string{nil, {"0pipe"}, nil})
 		}
 		if i%6 == 5 {
 			// exclude a directory, re-include something two levels below it through a wildcard in the middle:
@@ -1089,15 +1095,16 @@ func syncFiltered(c *Ctx) error {
 // metadata-only transfers (C19)
 
 type metaInput struct {
-	Src            model.Tree `json:"src"`
-	Dst            model.Tree `json:"dst"`
-	Selected       []string   `json:"selected"`
-	CapS           int        `json:"capS"`
-	CapR           int        `json:"capR"`
-	Origin         string     `json:"origin"`
-	Puppet         bool       `json:"puppet"`
-	Merge          bool       `json:"merge,omitempty"`
-	OutsideListing string     `json:"outsideListing,omitempty"` // "" | live | dangling: what the destination symlink named like the listing points at
+	Src               model.Tree `json:"src"`
+	Dst               model.Tree `json:"dst"`
+	Selected          []string   `json:"selected"`
+	CapS              int        `json:"capS"`
+	CapR              int        `json:"capR"`
+	Origin            string     `json:"origin"`
+	Puppet            bool       `json:"puppet"`
+	Merge             bool       `json:"merge,omitempty"`
+	OutsideListing    string     `json:"outsideListing,omitempty"`    // "" | live | dangling: what the destination symlink named like the listing points at
+	ListingFaultLimit int        `json:"listingFaultLimit,omitempty"` // > 0: the listing write-fault scenario with this file-size limit
 }
 
 const listingName = ".fsutil-metadata"
@@ -1202,11 +1209,28 @@ func runMeta(c *Ctx, caseNo int, in metaInput) ([]vt.Ev, *SyncResult, error) {
 	return res.Events, res, nil
 }
 
+// listingFaultTree: 400 directories with long names (a listing of about 75 KiB, no file content at all)
+func listingFaultTree() model.Tree {
+	var big model.Tree
+	for k := 0; k < 400; k++ {
+		big = append(big, model.Entry{Path: fmt.Sprintf("e%04d-%s", k, strings.Repeat("y", 150)), Type: "dir", Perm: 0755, Mtime: 1500000000000000000 + int64(k)})
+	}
+	return big
+}
+
 func syncMeta(c *Ctx) error {
 	if c.Replay != "" {
 		in := &metaInput{}
 		if err := vt.ReplayInput(c.Replay, in); err != nil {
 			return err
+		}
+		if in.ListingFaultLimit > 0 {
+			ev, err := runListingFault(c, c.NextCase(), listingFaultTree(), in.ListingFaultLimit)
+			if err != nil {
+				return err
+			}
+			c.Out.Emit(ev)
+			return nil
 		}
 		Regen(in.Src)
 		Regen(in.Dst)
@@ -1269,15 +1293,12 @@ func syncMeta(c *Ctx) error {
 	}
 	// a write fault on the listing itself: the receiving process may not write files larger than the limit
 	{
-		var big model.Tree
-		for k := 0; k < 400; k++ {
-			big = append(big, model.Entry{Path: fmt.Sprintf("e%04d-%s", k, strings.Repeat("y", 150)), Type: "dir", Perm: 0755, Mtime: uniqueMtime()})
-		}
 		for _, limit := range []int{4096, 40000} {
-			ev, err := runListingFault(c, c.NextCase(), big, limit)
+			ev, err := runListingFault(c, c.NextCase(), listingFaultTree(), limit)
 			if err != nil {
 				return err
 			}
+			ev["input"] = vt.Opaque(metaInput{ListingFaultLimit: limit, Origin: "listingWriteFault"})
 			c.Out.Emit(ev)
 			c.Stats.Case(fmt.Sprint("listingFault:", limit), true)
 			c.Stats.Count("origin:listingWriteFault", 1)
